@@ -1848,11 +1848,14 @@ impl TypeLayout {
             }
             (lhs, rhs, BinaryXor | BinaryAnd | BinaryOr | BitwiseLs | BitwiseRs) => {
                 match (lhs, rhs) {
-                    (Int, Int | BigInt | Byte) => Int,
+                    (Int, Int | Byte) => Int,
+                    (Int, BigInt) => BigInt,
                     //======================
                     (BigInt, BigInt | Int | Byte) => BigInt,
                     //======================
-                    (Byte, Byte | Int | BigInt) => Int,
+                    (Byte, Byte) => Byte,
+                    (Byte, Int) => Int,
+                    (Byte, BigInt) => BigInt,
                     _ => return None,
                 }
             }
@@ -1868,7 +1871,9 @@ impl TypeLayout {
             (BigInt, Int, ..) => BigInt,
             (BigInt, Float, ..) => Float,
             //======================
-            (x, Byte, ..) | (Byte, x, ..) => *x, // byte will always get overshadowed.
+            // byte will always get overshadowed by the other *numeric* operand.
+            (x @ (Int | BigInt | Float | Byte), Byte, ..)
+            | (Byte, x @ (Int | BigInt | Float | Byte), ..) => *x,
             //======================
             (Str(StrWrapper(Some(len1))), Str(StrWrapper(Some(len2))), Add) => {
                 Str(StrWrapper(Some(len1 + len2)))
